@@ -31,6 +31,10 @@ def build_inputs(ck, tier, rng):
 def run(tier):
     ck = core.Check("C01", tier)
     L = impl.lib()
+    bad = models.pipeline_model(ck, L, [(2, "all"), (3, "linear")] + ([] if tier == "quick" else [(3, "all")]))
+    if bad:     # design-level model with the shipped tables; concrete failing inputs come from the trace validation below
+        ck.cov["design_model_violations"] = bad
+        print("NOTE: design-level pipeline model violated with the shipped tables:", bad)
     inputs = build_inputs(ck, tier, ck.rng)
     jobs = sweep.expand_jobs(inputs, ["prep"], ck.rng)
     sweeps = sweep.sign_sweep_jobs(inputs, "prep", ck.rng)
